@@ -88,6 +88,21 @@ Theorem find_client_v0_needs_prefer_json :
 Proof. exact find_client_v0_prefer_json_proved. Qed.
 Print Assumptions find_client_v0_needs_prefer_json.
 
+(* History independence: in ANY sequence of Find / FindBatch calls of one process -- some of
+   whose requests were answered with a body cut in mid-transfer, a 5xx or not-found -- a
+   healthy Find of the repaired client still returns exactly what the server wrote for that
+   multihash.  (The client model keeps no state between calls; the hist cases check that the
+   real client behaves so, in particular that nothing read during a failed call leaks into a
+   later one.) *)
+Theorem healthy_find_in_any_history :
+  forall (before after : list (list served)) prefer kt m hexv cidv rs,
+    plain_key kt = true -> mh_valid m = true -> forallb wf_result rs = true ->
+    nth_error (hist_results (before ++ [(client_request prefer kt m hexv cidv, rs, HNoFault)] :: after))
+              (List.length before) =
+    Some (Ok (if is_nil rs then [] else [(m, map canon rs)])).
+Proof. exact healthy_find_in_any_history_proved. Qed.
+Print Assumptions healthy_find_in_any_history.
+
 (* FindBatch over any list of multihashes: the entries that have results, in request
    order, each with its multihash and its results in order; not-found ones are skipped. *)
 Theorem find_batch_reads_what_was_written :
@@ -229,3 +244,152 @@ Theorem http_error_roundtrip :
     from_response status (http_error_body msg) = Some (Some msg, status).
 Proof. exact http_error_roundtrip_proved. Qed.
 Print Assumptions http_error_roundtrip.
+
+(* ---- the other ways the same wire format is written and the helper is used ---- *)
+
+(* model.MarshalFindResponse of ANY FindResponse (any number of multihash results, nil or
+   non-nil result lists) read back by UnmarshalFindResponse: the same multihashes, in order,
+   each with the same results in order (nil = empty) *)
+Theorem marshal_find_response_roundtrip :
+  forall l, forallb wf_mhresult l = true ->
+    dec_findresp (enc_findresp l) = Ok (map canon_mhresult l).
+Proof. exact marshal_find_response_roundtrip_proved. Qed.
+Print Assumptions marshal_find_response_roundtrip.
+
+(* ResponseWriter used as an http.ResponseWriter: StatusCode() is the status on the wire
+   whenever the handler writes at most one status, or only one value besides 200 *)
+Theorem status_code_is_wire_status :
+  rw_status_after [] = wire_status_after [] /\
+  (forall c, rw_status_after [c] = wire_status_after [c]) /\
+  (forall c calls, forallb (fun x => (x =? 200) || (x =? c)) calls = true ->
+     rw_status_after calls = wire_status_after calls).
+Proof. exact status_code_is_wire_status_proved. Qed.
+Print Assumptions status_code_is_wire_status.
+
+(* MatchQueryParam: present iff the key occurs; matched iff one of its values is the value *)
+Theorem match_query_table :
+  forall labels value,
+    match_query labels value =
+    match labels with
+    | None => (false, false)
+    | Some ls => (true, if existsb (bytes_eqb value) ls then true else false)
+    end /\
+    (forall ls, labels = Some ls -> (snd (match_query labels value) = true <-> In value ls)).
+Proof. exact match_query_table_proved. Qed.
+Print Assumptions match_query_table.
+
+(* ---- ties to the Gallina regenerated from the Go source (proofs/GenTie_C19.v) ---- *)
+From Coq Require Import ZArith NArith List Bool Lia String.
+From Lib Require Import Bytes.
+From Model Require Import C19_FindWire.
+From Proofs Require Import GenTie_Lib.
+From Gen Require Import Gen_Consts Gen_Funcs_prelude Gen_Funcs_rwriter Gen_Funcs_apierror.
+Import ListNotations.
+Local Open Scope Z_scope.
+From Proofs Require Import GenTie_C19.
+
+Theorem gen_tie_media_switch : forall (prefer nd ok sat : bool) (e : mt),
+  rwriter_New_media_switch (mt_bytes e) nd ok prefer sat
+  = FFall (let '(nd', ok') := upd prefer nd ok e in (nd', ok', nd' && ok')).
+Proof. exact GenTie_C19.tie_media_switch. Qed.
+Print Assumptions gen_tie_media_switch.
+
+Theorem gen_media_switch_other : forall (prefer nd ok sat : bool) (b : list N),
+  b <> mt_bytes MTNd -> b <> mt_bytes MTJson -> b <> mt_bytes MTAny ->
+  rwriter_New_media_switch b nd ok prefer sat = FFall (nd, ok, nd && ok).
+Proof. exact GenTie_C19.media_switch_other. Qed.
+Print Assumptions gen_media_switch_other.
+
+Theorem gen_negotiate_uses_tail : forall scan prefer accepts,
+  negotiate_with scan prefer accepts =
+  match scan_values scan false false accepts with
+  | None => Err EInvalidAccept
+  | Some (nd, ok) => negotiate_tail prefer (List.length accepts) nd ok
+  end.
+Proof. exact GenTie_C19.negotiate_uses_tail. Qed.
+Print Assumptions gen_negotiate_uses_tail.
+
+Theorem gen_tie_accept_verdict : forall (prefer nd ok : bool) (accepts : list (list N)),
+  verdict_class (rwriter_New_accept_verdict accepts nd ok prefer)
+  = match negotiate_tail prefer (List.length accepts) nd ok with Err c => Some c | _ => None end.
+Proof. exact GenTie_C19.tie_accept_verdict. Qed.
+Print Assumptions gen_tie_accept_verdict.
+
+Theorem gen_content_type_table : forall nd : bool,
+  rwriter_New_content_type nd = FFall
+    (if nd then ["w.Header().Set(""Content-Type"", mediaTypeNDJson)"; "w.Header().Set(""Connection"", ""Keep-Alive"")";
+                 "w.Header().Set(""X-Content-Type-Options"", ""nosniff"")"]
+     else ["w.Header().Set(""Content-Type"", mediaTypeJson)"])%string.
+Proof. exact GenTie_C19.content_type_table. Qed.
+Print Assumptions gen_content_type_table.
+
+Theorem gen_WriteHeader_table : forall code st : Z,
+  match rwriter_WriteHeader code st with
+  | FFall (st', tr) => st' = (if code =? 200 then st else code) /\ (tr = [] <-> code = 200)
+  | _ => False
+  end.
+Proof. exact GenTie_C19.WriteHeader_table. Qed.
+Print Assumptions gen_WriteHeader_table.
+
+Theorem gen_tie_Close : forall s : pwstate,
+  close_class (rwriter_ProviderResponseWriter_Close (Z.of_nat (pw_count s))
+                 (match w_mode (pw_w s) with ND => true | JS => false end))
+  = Some (match pw_close s with
+          | Err c => c
+          | Ok (BLines _) => 0%N
+          | Ok (BDoc _) => 1%N
+          | _ => 99%N
+          end).
+Proof. exact GenTie_C19.tie_Close. Qed.
+Print Assumptions gen_tie_Close.
+
+Theorem gen_tie_WriteProviderResult : forall (s : pwstate) (r : presult),
+  match rwriter_ProviderResponseWriter_WriteProviderResult None (Z.of_nat (pw_count s))
+          (match w_mode (pw_w s) with ND => true | JS => false end) with
+  | FReturn ret (cnt, tr) =>
+      ret = "return nil"%string /\ cnt = Z.of_nat (pw_count (pw_write s r)) /\
+      (* NDJSON: encoded and flushed at once; JSON: kept for Close *)
+      (In "pw.Flush()"%string tr <-> w_mode (pw_w s) = ND) /\
+      (In "pw.result.ProviderResults = append(pw.result.ProviderResults, pr)"%string tr <-> w_mode (pw_w s) = JS)
+  | _ => False
+  end.
+Proof. exact GenTie_C19.tie_WriteProviderResult. Qed.
+Print Assumptions gen_tie_WriteProviderResult.
+
+Theorem gen_MatchQueryParam_table : forall (value : list N) (present : bool) (labels : list (list N)),
+  rwriter_MatchQueryParam value labels present =
+  if present then (true, existsb (fun l => Gen_Funcs_prelude.bytes_eqb l value) labels) else (false, false).
+Proof. exact GenTie_C19.MatchQueryParam_table. Qed.
+Print Assumptions gen_MatchQueryParam_table.
+
+Theorem gen_tie_FromResponse : forall (new : option string -> Z -> option string) (status : Z) (body : bytes),
+  let t := trim_space body in
+  let msg := if is_nil t then None else Some (string_of_bytes t) in
+  apierror_FromResponse new trim_space status body = (if status =? 0 then msg else new msg status)
+  /\ from_response status body =
+     (if status =? 0 then (if is_nil t then None else Some (Some t, 0))
+      else Some (if is_nil t then None else Some t, status)).
+Proof. exact GenTie_C19.tie_FromResponse. Qed.
+Print Assumptions gen_tie_FromResponse.
+
+Theorem gen_tie_DecodeError_tail : forall (e0 : option string) (msg : list N) (st : Z),
+  match apierror_DecodeError_tail msg st e0 with
+  | FReturn s _ => s = (if (st =? 0)%Z then "return err" else "return New(err, e.Status)")%string
+  | _ => False
+  end.
+Proof. exact GenTie_C19.tie_DecodeError_tail. Qed.
+Print Assumptions gen_tie_DecodeError_tail.
+
+Theorem gen_Error_Error_table : forall (err : option string) (st : Z) (text : list N),
+  match apierror_Error_Error text err st with
+  | FReturn s _ =>
+      s = (match err with
+           | Some _ => "return e.err.Error()"
+           | None => if (st =? 0)%Z then "return """""
+                     else if is_nil text then "return fmt.Sprintf(""%d"", e.status)"
+                     else "return fmt.Sprintf(""%d %s"", e.status, text)"
+           end)%string
+  | _ => False
+  end.
+Proof. exact GenTie_C19.Error_Error_table. Qed.
+Print Assumptions gen_Error_Error_table.
